@@ -5,7 +5,7 @@ C13: free list == inactive slots, nothing lost or duplicated, C01: the allocator
 identifier -> location).  Shapes and preconditions come from the code and its call sites.
 """
 from ..vxlib import Unit, Fn, Loop, Hint
-from .common import PRELUDE_STD, PRELUDE_REGISTRY
+from .common import PRELUDE_STD, PRELUDE_REGISTRY, PRELUDE_HASHMAP
 
 A = "src/entity/allocator/mod.rs"
 S = "src/entity/allocator/slot.rs"
@@ -62,6 +62,37 @@ impl<R: Registry> Allocator<R> {
 }
 
 pub open spec fn vx_min(a: int, b: int) -> int { if a <= b { a } else { b } }
+
+/// a location re-keyed through the old-archetype -> new-archetype identifier map (C10)
+pub open spec fn vx_remap<R: Registry>(l: Option<Location<R>>, m: IMap<archetype::IdentifierRef<R>, archetype::IdentifierRef<R>>) -> Option<Location<R>> {
+    match l { Some(l) => Some(Location { identifier: m[l.identifier], index: l.index }), None => None }
+}
+
+impl<R: Registry> Allocator<R> {
+    /// safety precondition of clone / clone_from: the map covers every archetype some slot refers to
+    pub open spec fn map_covers(&self, m: IMap<archetype::IdentifierRef<R>, archetype::IdentifierRef<R>>) -> bool {
+        forall|s: int| 0 <= s < self.slots@.len() && (#[trigger] self.slots@[s]).location is Some ==> m.dom().contains(self.slots@[s].location->0.identifier)
+    }
+    /// `self` is `src` with every location re-keyed through `m`: same slots, same generations,
+    /// same free list -- so the same identifiers resolve, to the corresponding rows (C10, C02)
+    pub open spec fn is_remapped_copy_of(&self, src: &Self, m: IMap<archetype::IdentifierRef<R>, archetype::IdentifierRef<R>>) -> bool {
+        &&& self.slots@.len() == src.slots@.len()
+        &&& forall|s: int| 0 <= s < src.slots@.len() ==> (#[trigger] self.slots@[s]).generation == src.slots@[s].generation
+        &&& forall|s: int| 0 <= s < src.slots@.len() ==> (#[trigger] self.slots@[s]).location == vx_remap(src.slots@[s].location, m)
+        &&& self.free@ == src.free@
+    }
+    pub proof fn lemma_remapped_copy_wf(&self, src: &Self, m: IMap<archetype::IdentifierRef<R>, archetype::IdentifierRef<R>>)
+        requires self.is_remapped_copy_of(src, m), src.wf(),
+        ensures self.wf(), forall|id: entity::Identifier| self.resolves(id) == src.resolves(id),
+    {
+        assert forall|s: int| 0 <= s < self.slots@.len() && (#[trigger] self.slots@[s]).location is None implies self.free@.contains(s as usize) by {
+            assert(src.slots@[s].location is None);
+        }
+        assert forall|i: int| 0 <= i < self.free@.len() implies self.slots@[(#[trigger] self.free@[i]) as int].location is None by {
+            assert(src.slots@[src.free@[i] as int].location is None);
+        }
+    }
+}
 '''
 
 # ---- V-hist: history lemmas over the *postcondition predicates* of the allocator operations.
@@ -197,6 +228,7 @@ def build():
     u = Unit("alloc")
     u.text(PRELUDE_STD)
     u.text(PRELUDE_REGISTRY)
+    u.text(PRELUDE_HASHMAP)
     # ---- entity::Identifier
     u.text("pub mod entity {\n    use super::*;")
     u.struct(EI, "Identifier", attrs=["#[derive(Clone, Copy)]"])
@@ -215,6 +247,10 @@ def build():
     u.impl("impl<R> Location<R> where R: Registry", [
         Fn(L, r"^impl<R> Location<R>", "new", ret="r",
            ensures=[("location.new", "r == (Location { identifier, index })")]),
+        Fn(L, r"^impl<R> Location<R>", "clone_with_new_identifier", ret="r",
+           requires=[("pre.safety_map_has_identifier", "identifier_map@.dom().contains(self.identifier)")],
+           ensures=[("C10.location_remapped", "r == (Location { identifier: identifier_map@[self.identifier], index: self.index })")],
+           props=["C10"]),
     ])
     u.struct(LS, "Locations")
     u.struct(S, "Slot")
@@ -255,6 +291,14 @@ def build():
                     ("slot.deactivate.location", "final(self).location is None")], props=["C02"]),
         Fn(S, r"^impl<R> Slot<R>", "is_active", ret="b",
            ensures=[("slot.is_active", "b == (self.location is Some)")]),
+        Fn(S, r"^impl<R> Slot<R>", "clone_with_new_identifier", ret="r",
+           rewrites=[(r"self\.location\.map\(\|location\|\s*(unsafe \{.*?\})\)",
+                      r"match self.location { Some(location) => Some(\1), None => None }",
+                      "R5c: Option::map(closure) written as the match it is defined to be")],
+           requires=[("pre.safety_map_has_identifier", "self.location is Some ==> identifier_map@.dom().contains(self.location->0.identifier)")],
+           ensures=[("C10.slot_generation_kept", "r.generation == self.generation"),
+                    ("C10.slot_location_remapped", "r.location == vx_remap(self.location, identifier_map@)")],
+           props=["C10", "C02"]),
     ])
 
     WF_ENS = [
@@ -473,6 +517,35 @@ def build():
            ],
            props=["C02", "C13"]),
     ])
+    u.impl("impl<R> Allocator<R> where R: Registry", [
+        Fn(A, r"^impl<R> Allocator<R>", "shrink_to_fit",
+           ensures=[("C02.shrink_keeps_slots", "final(self).slots@ == old(self).slots@"),
+                    ("C13.shrink_keeps_free", "final(self).free@ == old(self).free@")],
+           props=["C02", "C13", "C01"]),
+        Fn(A, r"^impl<R> Allocator<R>", "clone", ret="r",
+           rewrites=[(r"let mut vx_v = Vec::new\(\)", "let mut vx_v: Vec<Slot<R>> = Vec::new()", "type ascription only")],
+           requires=[("pre.safety_map_covers", "self.map_covers(identifier_map@)")],
+           ensures=[("C10.remapped_copy", "r.is_remapped_copy_of(self, identifier_map@)")],
+           loops=[Loop(invariant=[
+               ("clone.i", "vx_i <= self.slots@.len() && vx_v@.len() == vx_i"),
+               ("clone.generation", "forall|s: int| 0 <= s < vx_i ==> (#[trigger] vx_v@[s]).generation == self.slots@[s].generation"),
+               ("clone.location", "forall|s: int| 0 <= s < vx_i ==> (#[trigger] vx_v@[s]).location == vx_remap(self.slots@[s].location, identifier_map@)"),
+               ("clone.pre", "self.map_covers(identifier_map@)"),
+           ], decreases="self.slots@.len() - vx_i")],
+           props=["C10", "C02", "C13"]),
+        Fn(A, r"^impl<R> Allocator<R>", "clone_from",
+           rewrites=[(r"self\.free\.clone_from\(&source\.free\);", "self.free = source.free.clone();",
+                      "R12: `a.clone_from(&b)` on a std collection written as `a = b.clone()` (Verus has no clone_from; std documents them as equivalent in value)")],
+           requires=[("pre.safety_map_covers", "source.map_covers(identifier_map@)")],
+           ensures=[("C10.remapped_copy", "final(self).is_remapped_copy_of(source, identifier_map@)")],
+           loops=[Loop(invariant=[
+               ("clone.i", "vx_i <= source.slots@.len() && self.slots@.len() == vx_i"),
+               ("clone.generation", "forall|s: int| 0 <= s < vx_i ==> (#[trigger] self.slots@[s]).generation == source.slots@[s].generation"),
+               ("clone.location", "forall|s: int| 0 <= s < vx_i ==> (#[trigger] self.slots@[s]).location == vx_remap(source.slots@[s].location, identifier_map@)"),
+               ("clone.pre", "source.map_covers(identifier_map@)"),
+           ], decreases="source.slots@.len() - vx_i")],
+           props=["C10", "C02", "C13"]),
+    ])
     u.text(HIST)
     u.witnesses = ["witness_hist_inv_reachable"]
     u.label_props = {
@@ -492,6 +565,10 @@ def build():
         "C13.free_fifo": [], "C13.free_untouched_when_empty": [], "C13.free_appended": [],
         "C13.free_consumed_exactly": ["C13", "C06"],
         "pre": [],
+        "clone": ["C10", "C02", "C13"],
+        "C10": ["C10", "C02", "C13"],
+        "C02.shrink_keeps_slots": ["C02", "C01", "C13"],
+        "C13.shrink_keeps_free": ["C13"],
     }
     return u
 
